@@ -37,6 +37,16 @@ CHECKS = {
   "Every octet offset of 30 conversations (incl. AUTH exchanges) and of a STARTTLS conversation (plaintext part and inner TLS part) is used as a disconnect point with three failure kinds; five server-initiated close reasons (QUIT, error threshold, over-long line, idle timeout via a virtual deadline, backend panic) are combined with every command suffix of length <=2 already buffered behind the closing command, with ReadTimeout 0 and set, SMTP and LMTP, at default GOMAXPROCS and 1. A session-lifecycle automaton over the recorded callbacks checks exactly-one Logout per session, no callback after Logout, nothing executed after the closing reply; at the end of the run no goroutine with a go-smtp frame may remain.",
   "Known finding C08:data-begins-after-logout (zero-octet transfer aborted before the delivery goroutine entered Data) is matched narrowly; leak check is global per run, not per case.",
   "DESIGN.md section 5 C08"),
+ "C03": ("exploration",
+  "runtime monitoring: transaction-monitor automaton driven by observed replies and recorded backend callbacks over exhaustive short and seeded long command histories",
+  "All histories of bounded length over 37 abstract commands appended to nine prefix states in four configurations, plus seeded longer histories, are executed lock-step against the real server; an independent transaction automaton (greeted / sender accepted / accepted recipients / chunked transfer open) judges every callback's precondition, the 5xx+no-callback rule for out-of-order commands, Reset after every transaction end, Logout at STARTTLS and what NewSession can observe. Exhaustive in the stated bound, sampled beyond.",
+  "A second MAIL accepted inside an open transaction makes the rest of that transaction unjudged; Reset required only when a sender had been accepted.",
+  "DESIGN.md section 5 C03"),
+ "C04": ("exploration",
+  "runtime monitoring: strict RFC 5321/2034 reply parser, per-command reply accounting, token attribution, differential execution across sending disciplines, gate-controlled overlap matrix",
+  "The history workload is executed lock-step (per-command arity, syntax, enhanced-code class, unique-token attribution of every backend verdict) and again as pipelined groups and randomly re-cut segments whose reply-code and callback sequences must equal the lock-step run; an overlap matrix enumerates all orders in which a parked delivery of an aborted chunked transaction, the completion of the next transaction and its delivery can happen (gates in the harness backend, no sleeps); control octets are injected at eight reply-echo sites.",
+  "Reply wording and codes are judged only where the statement fixes them; 8-bit reply text not judged.",
+  "DESIGN.md section 5 C04"),
 }
 
 NOT_APPLICABLE = {
